@@ -43,13 +43,21 @@ func init() {
 			e.assume(e.tb.ULt(t, e.tb.Const(64, uint64(n))))
 			return e.tb.Const(64, e.concretize(t, "choice"))
 		},
-		"vPanics":   apiPanics,
-		"vIte8":     func(e *Exec, fn *ssa.Function, a []Value) Value { return e.tb.Ite(a[0].(*sym.Term), a[1].(*sym.Term), a[2].(*sym.Term)) },
-		"vIte32":    func(e *Exec, fn *ssa.Function, a []Value) Value { return e.tb.Ite(a[0].(*sym.Term), a[1].(*sym.Term), a[2].(*sym.Term)) },
-		"vIte64":    func(e *Exec, fn *ssa.Function, a []Value) Value { return e.tb.Ite(a[0].(*sym.Term), a[1].(*sym.Term), a[2].(*sym.Term)) },
-		"vAnd":      func(e *Exec, fn *ssa.Function, a []Value) Value { return e.tb.BAnd(a[0].(*sym.Term), a[1].(*sym.Term)) },
-		"vOr":       func(e *Exec, fn *ssa.Function, a []Value) Value { return e.tb.BOr(a[0].(*sym.Term), a[1].(*sym.Term)) },
-		"vImplies":  func(e *Exec, fn *ssa.Function, a []Value) Value { return e.tb.Implies(a[0].(*sym.Term), a[1].(*sym.Term)) },
+		"vPanics": apiPanics,
+		"vIte8": func(e *Exec, fn *ssa.Function, a []Value) Value {
+			return e.tb.Ite(a[0].(*sym.Term), a[1].(*sym.Term), a[2].(*sym.Term))
+		},
+		"vIte32": func(e *Exec, fn *ssa.Function, a []Value) Value {
+			return e.tb.Ite(a[0].(*sym.Term), a[1].(*sym.Term), a[2].(*sym.Term))
+		},
+		"vIte64": func(e *Exec, fn *ssa.Function, a []Value) Value {
+			return e.tb.Ite(a[0].(*sym.Term), a[1].(*sym.Term), a[2].(*sym.Term))
+		},
+		"vAnd": func(e *Exec, fn *ssa.Function, a []Value) Value { return e.tb.BAnd(a[0].(*sym.Term), a[1].(*sym.Term)) },
+		"vOr":  func(e *Exec, fn *ssa.Function, a []Value) Value { return e.tb.BOr(a[0].(*sym.Term), a[1].(*sym.Term)) },
+		"vImplies": func(e *Exec, fn *ssa.Function, a []Value) Value {
+			return e.tb.Implies(a[0].(*sym.Term), a[1].(*sym.Term))
+		},
 		"vBytesEq":  apiBytesEq,
 		"vStrEq":    func(e *Exec, fn *ssa.Function, a []Value) Value { return e.strEq(a[0].(Str), a[1].(Str)) },
 		"vSymbolic": func(e *Exec, fn *ssa.Function, a []Value) Value { return e.tb.True },
